@@ -54,6 +54,21 @@ CHECKS = {
         design_ref="DESIGN.md section 3 C27, section 8",
         technique="forward must-analysis (mode flag, comparison outcome) over MIR CFG; path identity by local / provenance",
     ),
+    "C28": dict(
+        category="proof",
+        text="Decides the per-variant emission structure of veryl_pretty::render and the anchor-recording order: render_frame "
+             "and fits_flat have an explicit arm for every Doc variant; on every CFG path through its arm Text pushes its own "
+             "payload, Anchored/Comments hand their payload to emit_anchored/render_comments, Concat pushes a frame per item in "
+             "reverse onto the LIFO stack, Indent/Group/ForceFlat push their inner document; emit_anchored and every iteration "
+             "of render_comments push the item's text; IfBreak text is pushed exactly under mode == Break and the break/flat "
+             "paddings only under their mode; anchors are built from (state.current_line, state.col + 1) and the item's own "
+             "source coordinates after the pending indent is flushed, with nothing moving the cursor before the text is pushed; "
+             "the trailing-whitespace strip runs only under its option on the final string; no byte length flows into a column. "
+             "Finite, exact obligations over 7 functions. It does not decide that layout choices (fits_flat budgets, "
+             "swallow/pending-indent interplay) are right.",
+        design_ref="DESIGN.md section 3 C28, section 8.4d",
+        technique="enum-arm exhaustiveness; must-pass-through on MIR CFG with feasibility pruning; access-path identity; provenance (units)",
+    ),
     "C29": dict(
         category="proof",
         text="Decides the guard and GC structure of veryl_cache::Store: gc's referenced set covers every blob-bearing "
